@@ -363,6 +363,10 @@ def replay_file(path):
         import svcheck
         d["path_self"] = path
         return svcheck.replay_file(d)
+    if d.get("kind") == "bv":
+        import bvcheck
+        d["path_self"] = path
+        return bvcheck.replay_file(d)
     if d.get("kind") == "scan":
         print(json.dumps(d, indent=1))
         return 1
